@@ -130,7 +130,7 @@ def _writer_sets(repo):
     # who resolves library futures: the rely `others may only cancel` of callback units
     out += S.check_caller_set(repo, "try_set_result", "try_set_result",
                               ["map.MapFuture._on_mapped", "poll.PollDescriptor.yield_result", "futures.bool.BoolOperation.handle_done",
-                               "futures.zip.Zipper.handle_done"], ["C13", "C02", "C01", "C08", "C14", "C15"])
+                               "futures.zip.Zipper.handle_done", "retry.copy_future"], ["C13", "C02", "C01", "C08", "C14", "C15"])
     out += S.check_caller_set(repo, "copy_future_exception", "copy_future_exception",
                               ["map.MapFuture._delegate_failed", "poll.PollFuture._delegate_resolved", "retry.copy_future",
                                "futures.bool.BoolOperation.handle_done", "futures.zip.Zipper.handle_done"],
